@@ -191,8 +191,19 @@ fn process_array_in(
                 // We can instead optimize this to a condition that is always false
                 Ok(sql_ast::Expr::Value(Value::Boolean(false).into()))
             } else {
+                // the tested expression binds like the operand of a comparison
+                let strength = BinaryOperator::Eq.binding_strength();
                 Ok(sql_ast::Expr::InList {
-                    expr: Box::new(translate_expr(col_expr.clone(), ctx)?.into_ast()),
+                    expr: Box::new(
+                        translate_operand(
+                            col_expr.clone(),
+                            true,
+                            strength,
+                            Associativity::None,
+                            ctx,
+                        )?
+                        .into_ast(),
+                    ),
                     list: in_values
                         .iter()
                         .map(|a| Ok(translate_expr(a.clone(), ctx)?.into_ast()))
@@ -346,18 +357,20 @@ fn try_into_between(expr: rq::Expr, ctx: &mut Context) -> Result<Option<sql_ast:
                     // We need for the values on each arm to be the same; e.g. x
                     // > 3 and x < 5
                     if a_l == b_l {
+                        // operands of BETWEEN bind like operands of a comparison
+                        let strength = BinaryOperator::GtEq.binding_strength();
                         return Ok(Some(sql_ast::Expr::Between {
                             expr: Box::new(
-                                translate_operand(a_l, true, 0, Associativity::Both, ctx)?
+                                translate_operand(a_l, true, strength, Associativity::None, ctx)?
                                     .into_ast(),
                             ),
                             negated: false,
                             low: Box::new(
-                                translate_operand(a_r, true, 0, Associativity::Both, ctx)?
+                                translate_operand(a_r, true, strength, Associativity::None, ctx)?
                                     .into_ast(),
                             ),
                             high: Box::new(
-                                translate_operand(b_r, true, 0, Associativity::Both, ctx)?
+                                translate_operand(b_r, true, strength, Associativity::None, ctx)?
                                     .into_ast(),
                             ),
                         }));
